@@ -29,13 +29,14 @@ THEOREMS2 = {
     "C03": ["KaVerif.PIPE_qty_expr", "KaVerif.PIPE_qty_dim"],
     "C04": ["KaVerif.PIPE_qty_expr", "KaVerif.PIPE_unit_lookup"],
     "C05": ["KaVerif.PIPE_comb", "KaVerif.PIPE_comb_program", "KaVerif.PIPE_comb_exact"],
-    "C06": ["KaVerif.PIPE_stages", "KaVerif.PIPE_parse_marker_inside", "KaVerif.PIPE_elementary_domain"],
+    "C06": ["KaVerif.PIPE_execute", "KaVerif.PIPE_outcome_shape", "KaVerif.PIPE_display_stage", "KaVerif.PIPE_display_total",
+            "KaVerif.PIPE_stages", "KaVerif.PIPE_parse_marker_inside", "KaVerif.PIPE_elementary_domain"],
     "C09": ["KaVerif.PIPE_compare", "KaVerif.PIPE_compare_node", "KaVerif.PIPE_compare_semantics",
             "KaVerif.PIPE_compare_chain_rejected"],
     "C11": ["KaVerif.PIPE_stages", "KaVerif.PIPE_text_of_tree"],
-    "C12": ["KaVerif.PIPE_array_aggregates", "KaVerif.PIPE_range"],
+    "C12": ["KaVerif.PIPE_array_aggregates", "KaVerif.PIPE_range", "KaVerif.PIPE_range_step"],
     "C13": ["KaVerif.PIPE_unit_lookup", "KaVerif.PIPE_qty_expr"],
-    "C15": ["KaVerif.PIPE_display", "KaVerif.PIPE_display_int"],
+    "C15": ["KaVerif.PIPE_display", "KaVerif.PIPE_display_int", "KaVerif.PIPE_display_total"],
     "C16": ["KaVerif.PIPE_elementary", "KaVerif.PIPE_elementary_call", "KaVerif.PIPE_elementary_domain",
             "KaVerif.PIPE_elementary_finite"],
 }
